@@ -185,12 +185,23 @@ func execUpgrade(x *Exec, f *vestFam, toks []string) string {
 			if !complete {
 				x.hit("C16", "split-all-or-nothing", "partial-split", "the state changed but the split is not complete")
 			}
-			for _, b := range before {
-				if b.owner == v120.ValidatorsVestingPoolOwner && b.p.Name == "Validators pool" {
-					for _, a := range after {
-						if a.owner == b.owner && a.p.Name == "Validator round pool" && (!a.p.Sent.Equal(b.p.Sent) || !a.p.Withdrawn.Equal(b.p.Withdrawn)) {
-							x.hit("C16", "split-conserves", "history", "sent/withdrawn of the validators pool changed")
-						}
+			// every pool that existed before keeps its sent / withdrawn history; pools keep their position
+			// in the owner's list (new pools are appended), so they are matched by owner and position
+			pos := map[string]int{}
+			byOwner := func(ps []poolSnap) map[string][]poolSnap {
+				m := map[string][]poolSnap{}
+				for _, p := range ps {
+					m[p.owner] = append(m[p.owner], p)
+				}
+				return m
+			}
+			bo, ao := byOwner(before), byOwner(after)
+			_ = pos
+			for owner, bl := range bo {
+				al := ao[owner]
+				for i, b := range bl {
+					if i >= len(al) || !al[i].p.Sent.Equal(b.p.Sent) || !al[i].p.Withdrawn.Equal(b.p.Withdrawn) {
+						x.hit("C16", "split-conserves", "history", fmt.Sprintf("sent/withdrawn of pool %q of %s changed", b.p.Name, owner))
 					}
 				}
 			}
@@ -286,6 +297,16 @@ func genUpgrade(g *Gen, n int) {
 				}
 				if g.chance(0.7) {
 					g.emit("v.genpool %s %s Advisors %d %d %s 0 0 0", owner, esc("Advisors pool"), ls, ls+100*86400*sec, g.logBig(12))
+				}
+				if sc%3 == 0 {
+					// directed shape: the owner already has a pool named like one of the pools the split
+					// creates (and possibly like the renamed validators pool): its coins must stay on the books
+					wd2, sent2 := g.logBig(8), g.logBig(8)
+					ini2 := new(big.Int).Add(g.logBig(13), new(big.Int).Add(wd2, sent2))
+					g.emit("v.genpool %s %s Advisors %d %d %s %s %s 0", owner,
+						esc(g.pick("VC round pool", "Early-bird round pool", "Public round pool", "Strategic reserve short term round pool", "Validator round pool")),
+						ls, ls+50*86400*sec, ini2, wd2, sent2)
+					g.count("shape/split-target-name-exists")
 				}
 			}
 			// other owners, some with the old type
